@@ -84,6 +84,12 @@ type StandardUpgradeableBeaconState struct {
 	common.BeaconState
 }
 
+// UnwrapBeaconState returns the current inner state. Its type is the one of the current fork, with the
+// fork-specific interfaces (e.g. common.SyncCommitteeBeaconState) that the wrapper itself does not expose.
+func (s *StandardUpgradeableBeaconState) UnwrapBeaconState() common.BeaconState {
+	return s.BeaconState
+}
+
 func (s *StandardUpgradeableBeaconState) UpgradeMaybe(ctx context.Context, spec *common.Spec, epc *common.EpochsContext) error {
 	slot, err := s.BeaconState.Slot()
 	if err != nil {
